@@ -42,8 +42,9 @@
 (* harness/cmd/c13drv (static effect tables ChgM / ChgC / FileEff written   *)
 (* from the option documentation for exactly those images); attestation    *)
 (* children, foreign layers and WithManifestToOCIReferrers are driven on    *)
-(* the real code but not predicted here.  The five Fix* constants switch    *)
-(* between the code as it is (FALSE) and the repaired design (TRUE):        *)
+(* the real code but not predicted here.  The six Fix* constants switch     *)
+(* between the code before the repair commits 1c05a04, b052c11, 29901b5,    *)
+(* 72c6cba, ccb0066, 27c13f3 (FALSE) and the code as it is now (TRUE):      *)
 (*   FixData   dagPut index branch takes the child's body for `data`        *)
 (*   FixWriter the per-file rewrite compresses by the current media type    *)
 (*   FixAdded  a layer added by WithLayerAddTar carries its descriptor as   *)
@@ -51,7 +52,11 @@
 (*             nothing does not re-push from the consumed reader            *)
 (*   FixTag    an unchanged image is still pushed when the target names a   *)
 (*             new tag in the same repository                               *)
-(*   FixClose  the layer reader is closed once (today: a second, deferred   *)
+(*   FixDesc   WithManifestDigestAlgo builds the descriptor of the re-created *)
+(*             manifest from the media type alone (before: the descriptor   *)
+(*             it was loaded with, whose inline data then went stale into   *)
+(*             the subject of the child's referrers)                        *)
+(*   FixClose  the layer reader is closed once (before: a second, deferred  *)
 (*             Close re-runs the stream steps' close functions; with an OCI *)
 (*             layout source that second Close fails half way and leaves    *)
 (*             the digest of an inner digest step in newDesc)               *)
@@ -63,7 +68,7 @@ CONSTANTS Images,    \* source images: [n, hist, shape, fam, comp, data, refs]
           MaxProg,   \* maximal program length
           Places,    \* subset of {"same-digest", "same-tag", "same-replace", "cross"}
           SrcKinds,  \* subset of {"reg", "dir"}: the source is a registry or an OCI layout
-          FixData, FixWriter, FixAdded, FixTag, FixClose,
+          FixData, FixWriter, FixAdded, FixTag, FixClose, FixDesc,
           Fine       \* TRUE: one action per iteration of dagPut's loops
 
 VARIABLES img, place, src, want, prog, pc, kids, topm, st, w, err
@@ -112,6 +117,8 @@ Child(im, p) ==
    H |-> HistOf(im.hist, "L", 0, 0),
    dls |-> [i \in 1..im.n |-> [DagLayer("unchanged", SrcTok(im, "L", i), NoDesc, NoDiff, FALSE) EXCEPT !.inl = im.data /\ i = 1]],
    ddata |-> im.data,          \* the manifest's own descriptor (from the index entry) carries inline data
+   stale |-> FALSE,            \* ... which no longer is the body of the manifest
+   subj |-> "none",            \* data in the subject descriptor written into this child's referrer: none / right / stale
    annos |-> {},               \* annotation groups added by this run: "l2a", "x", "base" (for WithAnnotationPromoteCommon)
    cdata |-> (IF im.data THEN "right" ELSE "none"),    \* inline data of the config descriptor
    ldata |-> [i \in 1..im.n |-> IF im.data /\ i = 1 THEN "right" ELSE "none"],
@@ -200,8 +207,10 @@ NoopProg == \A j \in 1..Len(prog) :
 (* manifest phase: dagWalkManifests runs every manifest step on the children first, then on the top *)
 \* SetOrig / SetAnnotation / manifest.New(WithOrig) give the manifest a fresh descriptor: inline data is gone
 Mark(ch) == [ch EXCEPT !.mod = IF @ = "unchanged" THEN "replaced" ELSE @, !.ddata = FALSE]
-\* WithManifestDigestAlgo re-creates the manifest with its old descriptor (manifest.WithDesc): inline data stays
-MarkKeep(ch) == [ch EXCEPT !.mod = IF @ = "unchanged" THEN "replaced" ELSE @]
+\* WithManifestDigestAlgo re-created the manifest with its old descriptor (manifest.WithDesc): inline data stayed,
+\* although the body is re-serialised (stale); repaired: a fresh descriptor
+MarkKeep(ch) == IF FixDesc THEN Mark(ch)
+                ELSE [ch EXCEPT !.mod = IF @ = "unchanged" THEN "replaced" ELSE @, !.stale = ch.ddata]
 Fail(ch, why) == [ch EXCEPT !.fail = why]
 Failed(ch) == ch.fail # ""
 
@@ -431,6 +440,10 @@ PutChild(x) ==
       mod == IF changed /\ ch.mod = "unchanged" THEN "replaced" ELSE ch.mod
   IN [ch EXCEPT !.L = x.L, !.D = x.D, !.H = x.H, !.ldata = x.ld, !.cfgmod = cfgmod, !.cdata = cdata, !.mod = mod,
                 !.ddata = ch.ddata /\ ~changed,
+                \* referrers of a rewritten child get dm.m.GetDescriptor() as subject (same repository only; the catalogue
+                \* puts a referrer on the first child of an index)
+                !.subj = IF img.refs /\ Same /\ img.shape = "index" /\ x.c = 1 /\ mod = "replaced" /\ ch.ddata /\ ~changed
+                         THEN (IF ch.stale THEN "stale" ELSE "right") ELSE "none",
                 !.cfgpushed = cfgmod \/ ~Same,
                 !.pushed = mod \in {"replaced", "added"} \/ (mod = "unchanged" /\ ~Same)
                            \/ (FixTag /\ img.shape = "image" /\ place = "same-tag")]
@@ -548,7 +561,8 @@ AlignedChild(ch) ==
   /\ \A i \in 1..Len(ch.L) : ch.D[i] = DiffOf(ch.L[i])
   /\ ch.nohist \/ NonEmptyIds(ch.H) = [i \in 1..Len(ch.L) |-> ch.L[i].id]
 \* O1 (what the model can see of it): announced media type = stored compression, stored bytes are the layer
-TruthfulChild(ch) == \A i \in 1..Len(ch.L) : ch.L[i].ok /\ ch.L[i].mt = ch.L[i].wc /\ ch.L[i].mt # ""
+TruthfulChild(ch) == /\ \A i \in 1..Len(ch.L) : ch.L[i].ok /\ ch.L[i].mt = ch.L[i].wc /\ ch.L[i].mt # ""
+                     /\ ch.subj # "stale"
 \* O1 data / O3: index entries carry the child's own body, and a rewritten child is named (pushed and entered)
 TruthfulTop == img.shape = "index" => \A c \in 1..Len(kids) : topm.ents[c].data \in {"none", "right"}
 \* the reference Apply returns resolves: the top manifest exists at the target under the name returned
